@@ -43,7 +43,7 @@ from typing import Dict, List, Optional, Tuple
 from engine.src import FunctionInfo, own_nodes, own_nodes_incl_lambda, src_of, AnalysisError
 from engine.guards import cond_text, atoms
 from .common import resolve_call
-from .sem import expander, ctext, conds_at, calls, bind, stmt_of
+from .sem import expander, ctext, conds_at, calls, bind, stmt_of, guarded_values
 
 RULES = {
     "C05.a": "loss orientation and scale by abstract interpretation (side -> polynomial in q): IRLS weights and monitored error proportional to (over: 1-q, under: q); score = 2 x mean pinball loss, MAE at q = 0.5",
@@ -865,25 +865,8 @@ def check_fit_score(ck, repo):
 
 
 # -------------------------------------------------------------------- C05.b
-def _split(repo, fi, e, at, conds=frozenset(), depth=0):
-    """[(branch facts, expression)] for an expression whose value is chosen by
-    conditional expressions or by assignments in different branches"""
-    ex = expander(repo)
-    if depth > 4:
-        return [(conds, e, at)]
-    if isinstance(e, ast.IfExp):
-        return _split(repo, fi, e.body, at, conds | frozenset(atoms(ex.norm_expr(e.test, fi, at), True)), depth + 1) + _split(repo, fi, e.orelse, at, conds | frozenset(atoms(ex.norm_expr(e.test, fi, at), False)), depth + 1)
-    if isinstance(e, ast.Name):
-        rd = ex.rd(fi)
-        node = rd.node_of(at)
-        dns = [d for d in (rd.def_nodes(e.id, node) if node is not None else []) if d is not None]
-        out = []
-        if dns and all(d.kind == "stmt" and isinstance(d.ast, ast.Assign) and len(d.ast.targets) == 1 and isinstance(d.ast.targets[0], ast.Name) for d in dns) and len(rd.reaching(e.id, node)) == len(dns):
-            for d in dns:
-                c = conds_at(repo, fi, d.ast) if len(dns) > 1 else frozenset()
-                out += _split(repo, fi, d.ast.value, d.ast, conds | c, depth + 1)
-            return out
-    return [(conds, e, at)]
+def _split(repo, fi, e, at, conds=frozenset()):
+    return guarded_values(repo, fi, e, at, conds)
 
 
 def check_b(ck, repo):
